@@ -50,6 +50,7 @@ Families   == {FamVal, FamKw, FamPermCtx, FamDetour, FamGlobal, FamTimeit}
 EveryFam   == Families \cup {AllMgrs}
 OnlyAll    == {AllMgrs}
 OnlyGlobal == {FamGlobal}
+OnlyGlobalCore == {{"dyn", "ldtypes"}}
 OnlyPermCtx == {FamPermCtx}
 OnlyVal    == {FamVal}
 OnlyKw     == {FamKw}
@@ -263,6 +264,7 @@ Frame(m, a, si, sm, sc, t) ==
 \* threads, one level less when there are several threads
 Bonus == CASE fam = FamDetour -> 2
            [] fam = FamPermCtx /\ Cardinality(Threads) > 1 -> -1
+           [] fam = FamGlobal /\ Cardinality(Threads) > 1 /\ MaxDepth > 2 -> 2 - MaxDepth   \* frames carry history (v0, g0)
            [] fam = FamTimeit /\ MaxDepth > 3 -> 3 - MaxDepth      \* the status tree is history: depth 3 at most
            [] OTHER -> 0
 DepthOf(t) == IF t = Deep THEN MaxDepth + Bonus ELSE ShallowDepth
